@@ -155,6 +155,12 @@ fn dump(c: &tokio_postgres::Config, p: &str) -> String {
 const STRINGS: &[&str] = &[
     "", "u", "postgres", "na me", "üñï", "a=b", "/tmp", "/var/run/pg", "localhost", "db.example.com",
     "x'y\"z", "-c statement_timeout=5s", "💾",
+    // long values: past the 63 bytes PostgreSQL keeps of an identifier / application_name, with
+    // and without a multi-byte character across that boundary, and a long one made of 2-byte
+    // characters only (any byte offset that is not even lies inside a character)
+    "aaaaaaaaaaaaaaaaaaaaaaaaaaaaaaaaaaaaaaaaaaaaaaaaaaaaaaaaaaaaaaaaaaaaaaaaaaaaaa",
+    "aaaaaaaaaaaaaaaaaaaaaaaaaaaaaaaaaaaaaaaaaaaaaaaaaaaaaaaaaaaaaaéb",
+    "éééééééééééééééééééééééééééééééééééééééé",
 ];
 const URLS: &[&str] = &[
     "postgres://user:pw@host1:5433/db1",
@@ -421,7 +427,8 @@ fn passthrough_line(r: &mut Rng, c: &mut Config) -> String {
     )
 }
 
-const QUERIES: &[&str] = &["SELECT 1", "SELECT $1", "SELECT $1::text, $2"];
+// (the same statement with surrounding white space is a different query text, hence a different key)
+const QUERIES: &[&str] = &["SELECT 1", "SELECT $1", "SELECT $1::text, $2", " SELECT 1", "SELECT $1\n"];
 
 fn typesets() -> Vec<Vec<tokio_postgres::types::Type>> {
     use tokio_postgres::types::Type;
@@ -664,7 +671,7 @@ async fn wire_history(rng: &mut Rng, srv: &wire::Server) -> usize {
             let idx = open_held[rng.below(open_held.len())];
             let who = held[idx].1;
             // mostly from a small set of keys, so that hits are common
-            let q = QUERIES[if rng.chance(60) { rng.below(2) } else { rng.below(QUERIES.len()) }];
+            let q = QUERIES[if rng.chance(50) { rng.below(2) } else { rng.below(QUERIES.len()) }];
             let types = &sets[if rng.chance(60) { 1 + rng.below(2) } else { rng.below(sets.len()) }];
             let parses_before = srv.state.lock().unwrap().conns[base + who].parses.len();
             let c = &held[idx].0;
